@@ -28,7 +28,7 @@ class Req:
     """one request + what the spec says must happen"""
     def __init__(self, r, kind=None, last=False):
         self.kind = kind or r.choice(["echo", "echo", "noread", "readk", "early", "swallow", "p", "notfound", "close", "err", "errint", "errclose", "hookdrop", "hookdropclose", "bigr", "reqclose", "reqnoclose",
-                                      "closeempty", "closer", "hookdropclosesend"])
+                                      "closeempty", "closer", "hookdropclosesend", "silent", "errkind"])
         k = self.kind
         self.body = b""
         self.framing = None
@@ -52,6 +52,8 @@ class Req:
         elif k == "close": path = b"/close"
         elif k == "err": path = b"/err"
         elif k == "errint": path = b"/errint"
+        elif k == "errkind": path = b"/errkind/" + r.choice([b"brokenpipe", b"reset", b"aborted", b"eof", b"wouldblock", b"timedout", b"invaliddata", b"other"])
+        elif k == "silent": path = b"/silent"
         elif k == "errclose":
             path = b"/err"
             hdrs.append((b"Connection", b"close"))
@@ -88,7 +90,11 @@ class Req:
         else:
             self.wire_body = b""
         r.shuffle(hdrs)
-        self.head = method + b" " + path + b" HTTP/1.1\r\n" + b"".join(k_ + b": " + v + b"\r\n" for k_, v in hdrs) + b"\r\n"
+        # HTTP/1.0 requests are handled like HTTP/1.1 ones: the connection persists unless one of the listed reasons to close applies
+        ver = b"HTTP/1.0" if r.random() < 0.12 else b"HTTP/1.1"
+        if ver == b"HTTP/1.0" and r.random() < 0.3:
+            hdrs.append((b"Connection", b"keep-alive"))
+        self.head = method + b" " + path + b" " + ver + b"\r\n" + b"".join(k_ + b": " + v + b"\r\n" for k_, v in hdrs) + b"\r\n"
         self.has_body = has_body
 
     # ---- what the spec demands -------------------------------------------------
@@ -103,7 +109,8 @@ class Req:
         if k == "p": return (200, 0, self.a + b"," + self.b), False
         if k == "notfound": return (404, 0, b""), False
         if k == "close": return (200, 1, b"bye"), True
-        if k in ("err", "errint", "errclose"): return None, True
+        if k in ("err", "errint", "errclose", "errkind"): return None, True
+        if k == "silent": return "silent", False
         if k == "bigr": return (200, 0, b"x" * self.n), False
         if k == "hookdrop": return (405, 0, b""), False
         if k in ("hookdropclose", "hookdropclosesend"): return (405, 1, b""), True
@@ -176,6 +183,12 @@ def history(r, max_reqs=4, kinds=None):
         for sgm in segs:
             steps.append("s:" + hx(sgm))
         e, closes = q.expected()
+        if e == "silent":
+            # nothing is sent for this request and the connection stays open: a lock-step client cannot go on, so it
+            # half-closes and must see the end of the connection with no byte before it
+            steps.append("c"); steps.append("e"); exp.append("EOF")
+            closed = True
+            break
         if e is None:
             exp.append("EOF")
             steps.append("r")
